@@ -30,8 +30,10 @@ def combos(ctx, rnd):
     # REALPATH globmatch obeys the same rule (metamorphic check of C04 on globstar patterns mixing ** and ***)
     for p, f in [('***/c/**', L), ('**/c/***', L), ('***/r/**/y', L), ('***/a/**/x', L), ('**/b/***/x', L), ('***/**', L), ('**/***', L), ('***/c/**/y', L | F),
                  ('**/x', S), ('**/x', S | F), ('**/c/**', S), ('a/**/up/**', S), ('***/up/**', L)]:
-        for t in linky:
+        for j, t in enumerate(linky):
             out.append(('c04', t, (p, f, None, 'root_dir')))
+            # the same rule however the root is addressed (the symlink test has one branch per addressing mode)
+            out.append(('c04', t, (p, f, None, 'dir_fd' if j % 2 == 0 or not ctx.quick else 'cwd')))
     for pat, fl in [('*', W.RECURSIVE), ('*', W.RECURSIVE | W.HIDDEN), ('x|y', W.RECURSIVE | W.HIDDEN), ('*', W.RECURSIVE | W.SYMLINKS | W.HIDDEN),
                     ('**/x', W.RECURSIVE | W.FILEPATHNAME | W.GLOBSTAR | W.HIDDEN)]:
         for t in linky:
